@@ -37,6 +37,7 @@ Definition version := (N * N)%type.
 
 (* what _on_read uses of the Request it built (and keeps in _clients) *)
 Record reqinfo := { rver : version;        (* req.protocol *)
+                    is_head : bool;        (* req.method == 'HEAD' *)
                     has_host : bool;       (* bool(req.headers.get('Host')) *)
                     te_chunked : bool;     (* Transfer-Encoding header says chunked *)
                     keepalive : bool }.    (* parser.should_keep_alive() when the request was built *)
@@ -46,7 +47,7 @@ Inductive pathans := PCanon | PRedirect.
 Record answers := {
   a_ssl : res bool;
   a_exec : res pflags;
-  a_errreq : res version;
+  a_errreq : res (version * bool);   (* parsed version, method is HEAD *)
   a_req : res reqinfo;
   a_clen : res Z;
   a_path : res pathans;
@@ -64,15 +65,15 @@ Inductive tag := TSsl | TExec | TErrReq | TReq | TInt | TExcReq.
 Inductive esrc := SRead | SExc.
 Inductive iev :=
 | IExc (src : esrc)                                (* exception(fevent = read | exception) *)
-| IHttpError (code : N) (v : version)
-| IResponse (st : N) (v : version) (cl : bool)
+| IHttpError (code : N) (v : version) (hd : bool)     (* hd: the Request it carries has method HEAD *)
+| IResponse (st : N) (v : version) (cl : bool) (hd : bool)
 | IRequest (ri : reqinfo)
 | IClose.
 
 (* what the outside sees *)
 Inductive eff :=
 | EReject (code : N)                     (* httperror for a message that was not dispatched *)
-| EWrite (st : N) (v : version) (cl : bool)   (* one response: status, status-line version, says-close *)
+| EWrite (st : N) (v : version) (cl : bool) (hd : bool)   (* one response: status, status-line version, says-close, head only (HEAD) *)
 | EClose                                 (* close(sock) *)
 | EDispatch                              (* request event delivered to the application *)
 | ECrash                                 (* internal inconsistency: del of an absent table key *)
@@ -93,10 +94,10 @@ Definition set_cli (c : conn) (r : option reqinfo) : conn := {| buf := buf c; cl
 (* del self._buffers[sock] : KeyError when absent *)
 Definition del_buf (c : conn) : option conn := if buf c then Some (set_buf c false) else None.
 
-Definition reject (c : conn) (code : N) (v : version) (tags : list tag) : conn * hres * list tag :=
+Definition reject (c : conn) (code : N) (v : version) (hd : bool) (tags : list tag) : conn * hres * list tag :=
   match del_buf c with
   | None => (c, HKeyError, tags)
-  | Some c' => (c', HRet [IHttpError code (resp_version v)], tags)
+  | Some c' => (c', HRet [IHttpError code (resp_version v) hd], tags)
   end.
 
 (* http.py from `clen = int(...)` to the end of _on_read *)
@@ -107,11 +108,11 @@ Definition body_gate (c : conn) (a : answers) (f : pflags) (ri : reqinfo) (tags 
   | Ret n =>
       let tags := tags ++ [TInt] in
       if (negb (n =? 0)%Z || te_chunked ri) && negb (mc f) then (c, HRet [], tags)
-      else if (n <? 0)%Z then reject c 400 (rver ri) tags
-      else if negb (is10 (rver ri)) && negb (has_host ri) then reject c 400 (rver ri) tags
+      else if (n <? 0)%Z then reject c 400 (rver ri) (is_head ri) tags
+      else if negb (is10 (rver ri)) && negb (has_host ri) then reject c 400 (rver ri) (is_head ri) tags
       else match a_path a with
            | Raise => (c, HRaise, tags)
-           | Ret PRedirect => (c, HRet [IHttpError 301 (resp_version (rver ri))], tags)
+           | Ret PRedirect => (c, HRet [IHttpError 301 (resp_version (rver ri)) (is_head ri)], tags)
            | Ret PCanon =>
                match del_buf c with
                | None => (c, HKeyError, tags)
@@ -130,7 +131,7 @@ Definition headers_done (c : conn) (a : answers) (f : pflags) (tags : list tag)
       | Ret ri =>
           let c' := set_cli c (Some ri) in
           if negb (fst (rver ri) =? 1)
-          then (c', HRet [IHttpError 505 (resp_version (rver ri))], tags ++ [TReq])
+          then (c', HRet [IHttpError 505 (resp_version (rver ri)) (is_head ri)], tags ++ [TReq])
           else body_gate c' a f ri (tags ++ [TReq])
       end
   end.
@@ -146,7 +147,11 @@ Definition after_exec (c : conn) (a : answers) (tags : list tag) : conn * hres *
         | Some e =>
             match a_errreq a with
             | Raise => (c, HRaise, tags ++ [TErrReq])
-            | Ret v => reject c 400 (match e with BadFirstLine => (1, 1) | _ => v end) (tags ++ [TErrReq])
+            | Ret (v, hd) =>
+                (* BAD_FIRST_LINE: Request(sock, server=...) with the default version and method GET;
+                   otherwise a throw-away Request with the parsed version and method, NOT put into _clients *)
+                reject c 400 (match e with BadFirstLine => (1, 1) | _ => v end)
+                       (match e with BadFirstLine => false | _ => hd end) (tags ++ [TErrReq])
             end
         end
       else headers_done c a f tags
@@ -164,18 +169,38 @@ Definition on_read (secure : bool) (c : conn) (a : answers) : conn * hres * list
         else after_exec c1 a [TSsl]
     end.
 
+(* `if sock in self._clients: del self._clients[sock]` -- the pair of a rejected message was possibly never
+   registered (throw-away Request of the parser-error branch), hence the guard *)
+(* del self._clients[sock] : KeyError when absent *)
+Definition del_cli (c : conn) : option conn :=
+  match cli c with Some _ => Some (set_cli c None) | None => None end.
+Definition finish (c : conn) : option conn :=
+  match cli c with Some _ => del_cli c | None => Some c end.
+
 (* one self-fired event: _on_exception / _on_httperror / _on_response (and the application) *)
 Definition handle (c : conn) (a : answers) (e : iev) : conn * list eff * list iev * list tag :=
   match e with
   | IExc SRead =>
       match a_excreq a with
       | Raise => (c, [], [IExc SExc], [TExcReq])
-      | Ret _ => (c, [], [IHttpError 500 (resp_version (1, 1))], [TExcReq])
+      | Ret _ => (c, [], [IHttpError 500 (resp_version (1, 1)) false], [TExcReq])
       end
   | IExc SExc => (c, [], [], [])          (* no branch of _on_exception matches: return *)
-  | IHttpError code v => (c, [EReject code], [IResponse code v true], [])
-  | IResponse st v cl => (set_cli c None, [EWrite st v cl], if cl then [IClose] else [], [])
-  | IRequest ri => (c, [EDispatch], [IResponse (a_app a) (resp_version (rver ri)) (negb (keepalive ri))], [])
+  | IHttpError code v hd => (c, [EReject code], [IResponse code v true hd], [])
+  | IResponse st v cl hd =>
+      (* _on_response: status line + headers; HEAD: no body, then finished like any other response;
+         otherwise the body, then finished.  Both finishing blocks: close if announced, release the pair. *)
+      if hd then
+        match finish c with
+        | Some c' => (c', [EWrite st v cl true], if cl then [IClose] else [], [])
+        | None => (c, [EWrite st v cl true; ECrash], if cl then [IClose] else [], [])   (* KeyError in _on_response *)
+        end
+      else
+        match finish c with
+        | Some c' => (c', [EWrite st v cl false], if cl then [IClose] else [], [])
+        | None => (c, [EWrite st v cl false; ECrash], if cl then [IClose] else [], [])
+        end
+  | IRequest ri => (c, [EDispatch], [IResponse (a_app a) (resp_version (rver ri)) (negb (keepalive ri)) (is_head ri)], [])
   | IClose => (c, [EClose], [], [])
   end.
 
